@@ -1,4 +1,4 @@
-import Poulpy.Lemmas.BytesReaders
+import Poulpy.Lemmas.BytesRT
 /-!
 # C18 — serialisation round-trips, and rejects damaged input without corruption
 
@@ -42,11 +42,6 @@ theorem vec_read_rejects_oversized_capacity :
       (leBytes 8 1 ++ leBytes 8 1 ++ leBytes 8 1 ++ leBytes 8 1000 ++ leBytes 8 8 ++ List.replicate 8 1) =
       .err "invalid" ⟨1, 1, 1, 1, List.replicate 8 0⟩ := by decide
 
-def VecWF (x : VecZnx) : Prop :=
-  x.n < 2 ^ 64 ∧ x.cols < 2 ^ 64 ∧ x.size < 2 ^ 64 ∧ x.maxSize < 2 ^ 64 ∧ x.n * x.cols < 2 ^ 64 ∧ x.data.length < 2 ^ 64
-
-
-
 /-- round trip: every well-formed object satisfying the invariant is written without error (in both
 build profiles) and read back — dimensions and the `n·cols·size·8` active bytes — by any receiver whose
 buffer holds `n·cols·max_size·8` bytes; the unread tail of the stream is left for the next reader. -/
@@ -54,37 +49,8 @@ theorem vec_read_write (x r : VecZnx) (p : Profile) (tail : Bytes) (hw : VecWF x
     (hcap : x.n * x.cols * x.maxSize * 8 ≤ r.data.length) :
     ∃ bs, x.writeTo p = .ok bs ∧
       VecZnx.readFrom r (bs ++ tail) =
-        .ok () ⟨x.n, x.cols, x.size, x.maxSize, x.data.take (x.n * x.cols * x.size * 8) ++ r.data.drop (x.n * x.cols * x.size * 8)⟩ tail := by
-  obtain ⟨hn, hc, hs, hm, hnc, hd⟩ := hw
-  obtain ⟨hsz, hbuf⟩ := hi
-  have h1 : x.n * x.cols * x.size * 8 ≤ x.n * x.cols * x.maxSize * 8 :=
-    Nat.mul_le_mul_right 8 (Nat.mul_le_mul_left _ hsz)
-  have h2 : x.n * x.cols * x.size * 8 < 2 ^ 64 := by omega
-  have h3 : x.n * x.cols * x.size < 2 ^ 64 := by omega
-  have h4 : x.n * x.cols * x.maxSize * 8 < 2 ^ 64 := by omega
-  refine ⟨leBytes 8 x.n ++ leBytes 8 x.cols ++ leBytes 8 x.size ++ leBytes 8 x.maxSize ++ leBytes 8 (x.n * x.cols * x.size * 8) ++
-      x.data.take (x.n * x.cols * x.size * 8), ?_, ?_⟩
-  · unfold VecZnx.writeTo
-    simp only [bind, Outcome.bind, mulU_of_lt p hnc, mulU_of_lt p h3, mulU_of_lt p h2]
-    have : ¬ x.data.length < x.n * x.cols * x.size * 8 := by omega
-    simp only [this, ↓reduceIte]
-  · unfold VecZnx.readFrom
-    simp only [List.append_assoc]
-    rw [readU64_le _ hn, readU64_le _ hc, readU64_le _ hs, readU64_le _ hm, readU64_le _ h2]
-    rw [cm3x8_of_lt h2 (Or.inr hnc)]
-    simp only [ne_eq, not_true_eq_false, ↓reduceIte, getS_bind]
-    have hb : ¬ r.data.length < x.n * x.cols * x.size * 8 := by omega
-    simp only [hb, ↓reduceIte, cm3x8_of_lt h4 (Or.inr hnc), Option.any_some, decide_eq_true_eq]
-    have hc2 : ¬ ((decide (x.size > x.maxSize) || !decide (x.n * x.cols * x.maxSize * 8 ≤ r.data.length)) = true) := by
-      simp; omega
-    rw [if_neg hc2, readExactInto_bind]
-    simp only [modifyS_apply]
-    have hl : (List.take (x.n * x.cols * x.size * 8) x.data).length = x.n * x.cols * x.size * 8 := by
-      simp; omega
-    have hg : ¬ (x.n * x.cols * x.size * 8 > r.data.length) := by omega
-    have hlt : ¬ ((List.take (x.n * x.cols * x.size * 8) x.data ++ tail).length < x.n * x.cols * x.size * 8) := by
-      simp; omega
-    simp only [hg, hlt, ↓reduceIte, List.take_left' hl, List.drop_left' hl]
+        .ok () ⟨x.n, x.cols, x.size, x.maxSize, x.data.take (x.n * x.cols * x.size * 8) ++ r.data.drop (x.n * x.cols * x.size * 8)⟩ tail :=
+  vec_rt x r p tail hw hi hcap
 example : VecWF ⟨2, 1, 1, 2, List.replicate 32 3⟩ ∧ VecZnx.Inv ⟨2, 1, 1, 2, List.replicate 32 3⟩ := by
   unfold VecWF VecZnx.Inv; decide
 
@@ -143,6 +109,27 @@ theorem mat_read_ok_explicit (r r' : MatZnx) (bs rest : Bytes) (h : MatZnx.readF
 example : MatZnx.readFrom ⟨0, 0, 0, 0, 0, List.replicate 8 9⟩
     (leBytes 8 1 ++ leBytes 8 1 ++ leBytes 8 1 ++ leBytes 8 1 ++ leBytes 8 1 ++ leBytes 8 8 ++ List.replicate 8 5) =
     .ok () ⟨1, 1, 1, 1, 1, List.replicate 8 5⟩ [] := by decide
+
+/-- round trip for `ScalarZnx`: `read (write x) = ok x` (dimensions, the `n·cols·8` active bytes; receiver bytes beyond
+stay, stream tail unread) for any receiver whose buffer holds `n·cols·8` bytes, in both build profiles -/
+theorem scalar_read_write (x r : ScalarZnx) (p : Profile) (tail : Bytes) (hw : ScalarWF x) (hi : x.Inv)
+    (hcap : x.n * x.cols * 8 ≤ r.data.length) :
+    ∃ bs, x.writeTo p = .ok bs ∧
+      ScalarZnx.readFrom r (bs ++ tail) = .ok () ⟨x.n, x.cols, x.data.take (x.n * x.cols * 8) ++ r.data.drop (x.n * x.cols * 8)⟩ tail :=
+  scalar_rt x r p tail hw hi hcap
+example : ScalarWF ⟨4, 2, List.replicate 64 3⟩ ∧ ScalarZnx.Inv ⟨4, 2, List.replicate 64 3⟩ := by
+  unfold ScalarWF ScalarZnx.Inv; decide
+
+/-- round trip for `MatZnx` -/
+theorem mat_read_write (x r : MatZnx) (p : Profile) (tail : Bytes) (hw : MatWF x) (hi : x.Inv)
+    (hcap : x.rows * x.colsIn * x.n * x.colsOut * x.size * 8 ≤ r.data.length) :
+    ∃ bs, x.writeTo p = .ok bs ∧
+      MatZnx.readFrom r (bs ++ tail) =
+        .ok () ⟨x.n, x.size, x.rows, x.colsIn, x.colsOut,
+          x.data.take (x.rows * x.colsIn * x.n * x.colsOut * x.size * 8) ++ r.data.drop (x.rows * x.colsIn * x.n * x.colsOut * x.size * 8)⟩ tail :=
+  mat_rt x r p tail hw hi hcap
+example : MatWF ⟨2, 1, 2, 1, 1, List.replicate 32 3⟩ ∧ MatZnx.Inv ⟨2, 1, 2, 1, 1, List.replicate 32 3⟩ := by
+  unfold MatWF MatZnx.Inv; decide
 
 /-! ## Part 2 — `Distribution` -/
 
@@ -206,7 +193,8 @@ variable {L : List Nat} {M : Nat}
 
 attribute [local irreducible] readVecAt readScalarAt readMatAt rGLWE rGGLWE rGLWESwitchingKey rGLWEAutomorphismKey
   rGLWEPublicKey rGGLWEToGGSWKey rGLWECompressed rGGLWECompressed rGLWESwitchingKeyCompressed
-  rGLWEAutomorphismKeyCompressed rGGLWEToGGSWKeyCompressed rBlindRotationKey rBlindRotationKeyCompressed in
+  rGLWEAutomorphismKeyCompressed rGGLWEToGGSWKeyCompressed rBlindRotationKey rBlindRotationKeyCompressed
+  rCircuitBootstrappingKey rBDDKey in
 /-- **post-state invariant, every modelled type, every byte string, either outcome**: if the receiver's
 leaves were consistent with their buffers before `read_from`, they are afterwards (ok, err alike), no
 buffer changes length. -/
@@ -217,7 +205,8 @@ theorem reader_post_inv (ty : String) (r : Rd St Unit) (h : readerOf ty = some r
     | exact pres_rGLWE _ | exact pres_rGGLWE _ | exact pres_rGLWESwitchingKey _ | exact pres_rGLWEAutomorphismKey _
     | exact pres_rGLWEPublicKey _ | exact pres_rGGLWEToGGSWKey _ | exact pres_rGLWECompressed _
     | exact pres_rGGLWECompressed _ | exact pres_rGLWESwitchingKeyCompressed _ | exact pres_rGLWEAutomorphismKeyCompressed _
-    | exact pres_rGGLWEToGGSWKeyCompressed _ | exact pres_rBlindRotationKey _ | exact pres_rBlindRotationKeyCompressed _)
+    | exact pres_rGGLWEToGGSWKeyCompressed _ | exact pres_rBlindRotationKey _ | exact pres_rBlindRotationKeyCompressed _
+    | exact pres_rCircuitBootstrappingKey _ | exact pres_rBDDKey _)
 example : Keep [64] (2 ^ 40) ⟨[12], [], [.vec ⟨4, 2, 1, 1, List.replicate 64 0⟩], 2 ^ 40⟩ ∧ (readerOf "glwe").isSome = true := by
   refine ⟨⟨by decide, by decide, rfl⟩, by decide⟩
 
@@ -225,7 +214,8 @@ example : Keep [64] (2 ^ 40) ⟨[12], [], [.vec ⟨4, 2, 1, 1, List.replicate 64
 
 attribute [local irreducible] readVecAt readScalarAt readMatAt rGLWE rGGLWE rGLWESwitchingKey rGLWEAutomorphismKey
   rGLWEPublicKey rGGLWEToGGSWKey rGLWECompressed rGGLWECompressed rGLWESwitchingKeyCompressed
-  rGLWEAutomorphismKeyCompressed rGGLWEToGGSWKeyCompressed rBlindRotationKey rBlindRotationKeyCompressed in
+  rGLWEAutomorphismKeyCompressed rGGLWEToGGSWKeyCompressed rBlindRotationKey rBlindRotationKeyCompressed
+  rCircuitBootstrappingKey rBDDKey in
 /-- **totality, every modelled type**: from a consistent receiver, on every byte string, `read_from`
 returns `ok` or `err` — provided one allocation of 2^37 bytes (2^32 seeds of 32 bytes) is granted.
 FULL STATEMENT (false of the code, `reader_total_counterexample`): the same without `hM`. -/
@@ -237,7 +227,8 @@ theorem reader_total_partial (hM : 2 ^ 37 ≤ M) (ty : String) (r : Rd St Unit) 
     | exact np_rGLWE _ | exact np_rGGLWE _ | exact np_rGLWESwitchingKey _ | exact np_rGLWEAutomorphismKey _
     | exact np_rGLWEPublicKey _ | exact np_rGGLWEToGGSWKey _ | exact np_rGLWECompressed _
     | exact np_rGGLWECompressed hM _ | exact np_rGLWESwitchingKeyCompressed hM _ | exact np_rGLWEAutomorphismKeyCompressed hM _
-    | exact np_rGGLWEToGGSWKeyCompressed hM _ | exact np_rBlindRotationKey _ | exact np_rBlindRotationKeyCompressed hM _)
+    | exact np_rGGLWEToGGSWKeyCompressed hM _ | exact np_rBlindRotationKey _ | exact np_rBlindRotationKeyCompressed hM _
+    | exact np_rCircuitBootstrappingKey _ | exact np_rBDDKey _)
 example : (2 : Nat) ^ 37 ≤ 2 ^ 40 ∧ (readerOf "gglwe_compressed").isSome = true := by decide
 end
 
@@ -279,7 +270,8 @@ def singleLeaf : List String :=
 
 attribute [local irreducible] readVecAt readScalarAt readMatAt rGLWE rGGLWE rGLWESwitchingKey rGLWEAutomorphismKey
   rGLWEPublicKey rGGLWEToGGSWKey rGLWECompressed rGGLWECompressed rGLWESwitchingKeyCompressed
-  rGLWEAutomorphismKeyCompressed rGGLWEToGGSWKeyCompressed rBlindRotationKey rBlindRotationKeyCompressed in
+  rGLWEAutomorphismKeyCompressed rGGLWEToGGSWKeyCompressed rBlindRotationKey rBlindRotationKeyCompressed
+  rCircuitBootstrappingKey rBDDKey in
 /-- what does hold on error for the 24 single-layout types: the HAL layout — its dimension fields **and**
 its buffer — is exactly as before (only wrapper fields and seeds may have been overwritten). -/
 theorem wrapper_err_unchanged_partial (ty : String) (hty : ty ∈ singleLeaf) (r : Rd St Unit) (h : readerOf ty = some r) :
@@ -330,5 +322,34 @@ theorem wrapper_err_layout_unchanged_partial (ty : String) (hty : ty ∈ singleL
   exact t s bs k s' he
 example : rGLWE origin ⟨[12], [], [.vec ⟨1, 1, 1, 1, List.replicate 8 0⟩], 0⟩ (leBytes 4 17) = .err "eof" ⟨[17], [], [.vec ⟨1, 1, 1, 1, List.replicate 8 0⟩], 0⟩ := by
   decide +kernel
+
+/-! ### round trip of the 24 single-layout types, one statement over the reader / writer tables
+
+`RoundTrips ws sk lk pub r w` (Lemmas/BytesRT): for every profile, every source `x` whose wrapper fields fit their wire
+widths `ws` (a canonical `Distribution` for `pub`), whose seeds have the shape `sk` and whose HAL layout is well formed
+and consistent, and every receiver `s` of the same shape whose buffer has the capacity: `w p x = ok bs` and
+`r s (bs ++ tail) = ok () ⟨x.fields, x's seeds, x's dimensions and active bytes over s's buffer, s.mem⟩ tail`. -/
+theorem wrapper_read_write (ty : String) (hty : ty ∈ singleLeaf) :
+    ∃ (r : Rd St Unit) (w : Profile → St → Outcome Bytes), readerOf ty = some r ∧ (∀ p, writerOf p ty = some (w p)) ∧
+      RoundTrips (hdrWidths ty) (seedKind ty) (leafKind ty) (isPub ty) r w := by
+  simp only [singleLeaf, List.mem_cons, List.mem_nil_iff, or_false] at hty
+  rcases hty with rfl | rfl | rfl | rfl | rfl | rfl | rfl | rfl | rfl | rfl | rfl | rfl | rfl | rfl | rfl | rfl | rfl | rfl | rfl | rfl |
+    rfl | rfl | rfl | rfl
+  all_goals first
+    | exact ⟨_, _, rfl, fun _ => rfl, rt_vec⟩ | exact ⟨_, _, rfl, fun _ => rfl, rt_scalar⟩ | exact ⟨_, _, rfl, fun _ => rfl, rt_mat⟩
+    | exact ⟨_, _, rfl, fun _ => rfl, rt_glwe⟩ | exact ⟨_, _, rfl, fun _ => rfl, rt_gglwe⟩
+    | exact ⟨_, _, rfl, fun _ => rfl, rt_switching⟩ | exact ⟨_, _, rfl, fun _ => rfl, rt_autokey⟩
+    | exact ⟨_, _, rfl, fun _ => rfl, rt_pubkey⟩ | exact ⟨_, _, rfl, fun _ => rfl, rt_glwe_c⟩
+    | exact ⟨_, _, rfl, fun _ => rfl, rt_gglwe_c⟩ | exact ⟨_, _, rfl, fun _ => rfl, rt_switching_c⟩
+    | exact ⟨_, _, rfl, fun _ => rfl, rt_autokey_c⟩
+/-- non-vacuity: a GLWE automorphism key with `p = −5` (as u64), fields in range, 1×1×1×1×1 matrix of 8 bytes -/
+example : FieldsFit (hdrWidths "glwe_automorphism_key") [2 ^ 64 - 5, 12, 1] ∧
+    LeafOK (leafKind "glwe_automorphism_key") ⟨[2 ^ 64 - 5, 12, 1], [], [.mat ⟨1, 1, 1, 1, 1, List.replicate 8 7⟩], 0⟩
+      ⟨[0, 0, 0], [], [.mat ⟨1, 1, 1, 1, 1, List.replicate 8 0⟩], 0⟩ := by
+  refine ⟨⟨rfl, ?_⟩, ⟨_, _, rfl, rfl, ?_⟩⟩
+  · intro i hi _
+    have : i = 0 ∨ i = 1 ∨ i = 2 := by simp [hdrWidths] at hi; omega
+    rcases this with rfl | rfl | rfl <;> decide
+  · unfold MatRT MatWF MatZnx.Inv; decide
 
 end C18
